@@ -73,7 +73,10 @@ def lin(node, consts=None, defs=None, _depth=0):
     lets single-assignment locals stand for their definition"""
     consts = consts or {}
     if defs and isinstance(node, ast.Name) and node.id in defs and _depth < 6:
-        return lin(defs[node.id], consts, defs, _depth + 1)
+        x = lin(defs[node.id], consts, defs, _depth + 1)
+        if x is not None:
+            return x
+        return Lin(0, {node.id: 1})         # defined once by something that is not linear: the name itself is the atom
     if isinstance(node, ast.Constant) and isinstance(node.value, int) and not isinstance(node.value, bool):
         return Lin(node.value)
     if isinstance(node, ast.UnaryOp) and isinstance(node.op, ast.USub):
